@@ -87,7 +87,17 @@ FOCUS8 = {
     "C13": "devices with traffic in both directions at the same time and large messages, nng_device with a single socket (reflector), stopping a device with nng_aio_cancel and starting another on the same sockets, and 'backtraces that are malformed or longer than the header capacity' arriving at raw sockets (replies at XREQ, responses at XSURVEYOR as well as requests at XREP / XRESPONDENT)",
     "C14": "'dials again after a randomised delay no longer than the larger configured reconnect time': NNG_OPT_RECONNMINT / NNG_OPT_RECONNMAXT on the socket versus on the dialer, growth of the back-off and its reset after a successful connection, NNG_FLAG_NONBLOCK dials of an unreachable address, 'a dialer owns at most one pipe at a time' when the peer accepts and closes at once",
 }
+FOCUS9 = {
+    "C02": "nng_aio_wait and nng_aio_busy, several aios on one object completing in one batch, nng_aio_abort with a caller-supplied error code, user-defined providers built on nng_aio_start / nng_aio_finish, and the synchronous wrappers (nng_recvmsg, nng_sendmsg, blocking nng_dial) that use the skip-callback form: 'its skip-callback flag is set exactly once'",
+    "C03": "messages attached to an aio when it is freed or reused, message ownership on the error paths of nng_ctx_send / nng_ctx_recv / nng_socket_send, pipes closed while messages sit in per-pipe or per-context queues, and 'with the size it was allocated with' for every variable-size object (URLs, strings, id maps, option values, message bodies)",
+    "C11": "websocket and udp: malformed HTTP upgrade requests and responses, websocket frames that violate the SP mapping after a good upgrade, udp datagrams with inconsistent lengths, unknown opcodes or from unexpected addresses, 'only the offending connection is dropped' and 'the listener and all other connections keep working'",
+    "C16": "the websocket close handshake and ping / pong ('reassemble fragmented WebSocket messages exactly even when control frames are interleaved'), frames and messages at exactly the configured maxima and one byte above, Sec-WebSocket-Protocol negotiation, and chunked HTTP responses read by the client ('chunk sizes')",
+    "C20": "allocation failures inside the receive paths of transports (tcp, ipc, websocket, udp reassembly), inside protocol receive callbacks (duplicating a message for several contexts or subscribers, moving headers), in nng_ctx_open / nng_ctx_send / nng_ctx_recv, and when a further peer connects to a listener that already serves others: 'the documented best-effort loss of one message or one connection' and nothing else",
+    "C01": "zero-length messages interleaved with large ones, messages of exactly the transports' internal buffer or frame sizes and one byte around them, several senders (contexts or threads) sharing one connection ('messages that travel over the same connection arrive in the order they were sent'), ipc and socket-fd transports",
+}
 prop, tag = sys.argv[1], sys.argv[2]
+if len(sys.argv) > 3 and sys.argv[3] == "9":
+    FOCUS = FOCUS9
 if len(sys.argv) > 3 and sys.argv[3] == "8":
     FOCUS = FOCUS8
 if len(sys.argv) > 3 and sys.argv[3] == "7":
